@@ -65,3 +65,21 @@ Theorem C07_fast_path_is_checked_path : forall f d s0 m r c,
   fast_batch (ubits (pdt f d)) (phys (pdt f d)) tb (c_table c) (c_n c - nproc) inc limit eoi s
   = read_batch (ubits (pdt f d)) tb (c_table c) (c_n c - nproc) inc limit eoi s.
 Proof. exact parsed_chunk_fast_batch_eq. Qed.
+
+(* ---- the unchecked Huffman search of the fast path on the real table structure (Model/Huff.v:
+   unchecked_search_with_reader over unchecked_read_prefix_table_idx) never indexes out of bounds
+   and finds the code the semantic lookup finds, whenever max_code_len more bits lie inside the
+   words — which is what max_bits_read guarantees before the fast path is taken ---- *)
+From QCo.Model Require Import Words Huff.
+From QCo.Lemmas Require Import WordsL HuffL.
+
+Theorem C07_unchecked_huffman_search : forall w ps tbl ws i j,
+  table_ok ps = true -> ps <> [] -> hfrom w ps = Ok tbl ->
+  words_ok ws -> j <= 64 ->
+  64 * i + j + N.of_nat (max_code_len ps) <= 64 * Nlen ws ->
+  exists p i' j',
+    hsearch_unchecked ws i j tbl = Ok (p, (i', j')) /\
+    read_code ps (skipn (N.to_nat (64 * i + j)) (words_bits ws))
+      = Ok (p, skipn (N.to_nat (64 * i' + j')) (words_bits ws)) /\
+    64 * i' + j' = 64 * i + j + Nlen (p_code p) /\ j' <= 64.
+Proof. exact hsearch_unchecked_eq. Qed.
